@@ -61,6 +61,7 @@ def tripwire(fault, ctx):
        {'phase': 'end', 'res': r}                  raises when the r-th resource is exhausted
        {'phase': 'after-all'}                      raises after the last resource has been passed on
        {'phase': 'rowfunc', 'call': k}             a row-function raising at its k-th call
+       {'phase': 'cond-predicate' | 'cond-factory'} a conditional() step whose predicate / flow factory raises
     Returns a link."""
     marker = 'trip'
 
@@ -69,6 +70,18 @@ def tripwire(fault, ctx):
         ctx.log('fault', 'step-raise', where)
         raise make_exc(fault['exc'], marker)
     ph = fault['phase']
+    if ph in ('cond-predicate', 'cond-factory'):
+        # a conditional() whose predicate - or whose flow factory - raises while the package is being defined
+        import dataflows as DF
+
+        def predicate(dp):
+            if ph == 'cond-predicate':
+                fire('conditional predicate')
+            return True
+
+        def factory(dp):
+            fire('conditional flow factory')
+        return DF.conditional(predicate, factory if ph == 'cond-factory' else DF.Flow())
     if ph == 'rowfunc':
         state = {'n': 0}
 
